@@ -312,6 +312,7 @@ theorem IState.apply_idxSort (mode : CacheKeying) (s : IState) (op : IOp) : (s.a
   | purgeCache => rfl
   | getBlock vw h hdr => rfl
   | getQC vw h => rfl
+  | getBlocks vw pn pp => rfl
 
 theorem runIOps_idxSort (mode : CacheKeying) (ops : List IOp) : ∀ s : IState, (runIOps mode s ops).idxSort = s.idxSort := by
   induction ops with
@@ -371,6 +372,36 @@ theorem unsorted_indexer_txn_hides_pending_writes_from_iteration :
   unfold IView.txsByHeight
   rw [hit]
   decide +kernel
+
+/-! ## page queries (`GetBlocks`) read the cache and never fill it -/
+
+/-- whether `getBlockForPage` fills the cache, read off the source: its calls are the view lookup, the cache
+`Get`, and `getBlock` — no `blockCache.Add`; `GetBlocks` calls it with transactions, `setBlocksTook` header-only -/
+def pageFillOfSource : PageFill :=
+  if (Gen.Store.blockCacheUse.filter (·.1 = "getBlockForPage")).map (·.2) =
+       ["t.db.Get(t.blockHeightKey(height))", "blockCache.Get(string(hashKey))", "t.getBlock(hashKey, transactions)"] ∧
+     (Gen.Store.blockCacheUse.filter (·.1 = "GetBlocks")).map (·.2) = ["t.getBlockForPage(newest-uint64(index), true)"] ∧
+     (Gen.Store.blockCacheUse.filter (·.1 = "setBlocksTook")).map (·.2) = ["t.getBlockForPage(height-1, false)"]
+  then .none else .addsLoaded
+
+theorem page_query_never_fills_cache : pageFillOfSource = .none := by decide
+
+/-- **`page_query_transparent`** — a page query changes nothing a later reader can observe: whatever the cache
+held under any key it still holds (entries are at most touched), so with `CInv.apply` every theorem above
+(`block_cache_transparent`, `block_history_immutable`, `qc_history_immutable`) holds for histories with
+`GetBlocks` anywhere; and each block of a page is what `GetBlockByHeight` answers for that height — for a
+read-only view: what the view's own data says (`block_cache_transparent`). -/
+theorem page_query_transparent (c : Cache) (v : IView) (pn pp : Nat) :
+    (∀ k, (getBlocks pageFillOfSource c v pn pp).2.lookup k = c.lookup k) ∧
+    (∀ h, (getBlockForPage pageFillOfSource c v h true).1 = (getBlockByHeight .byHashKey c v h).1) := by
+  rw [page_query_never_fills_cache]
+  refine ⟨fun k => getBlocks_lookup c v pn pp k, fun h => ?_⟩
+  unfold getBlockForPage getBlockByHeight
+  simp only
+  by_cases he : (v.getB (blockHeightKey h)).isEmpty = true
+  · simp [he]
+  · simp only [he, Bool.false_eq_true, if_false]
+    cases c.lookup (v.getB (blockHeightKey h)) <;> rfl
 
 /-! ### through the cache: full strength on the code as it stands
 
@@ -498,6 +529,22 @@ theorem block_cache_by_hash_key_answers_correctly :
     (let s := runIOps .byHashKey {} [.store (.set [1, 97] [1]), .indexBlock 1 [0xB1] [[0x71]], .purgeCache,
         .getBlock none 1 false, .store .commit]
      (getBlockByHeight .byHashKey s.cache s.live 1).1 = { hHeight := 1, hash := [0xB1], txs := [[0x71]] }) := by
+  decide +kernel
+
+/-- **were `getBlockForPage` to add what it loaded to the cache** (under `GetBlockByHeight`'s own guard), a page
+query on a cold cache would poison it: `setBlocksTook` loads the block below the page WITHOUT its transactions
+and that header-only result would sit under the block's hash key — `GetBlockByHeight` then serves committed
+height 1 without its transaction, to the store and to every view. With the source's `getBlockForPage` the same
+sequence answers correctly. -/
+theorem page_query_filling_cache_serves_block_without_txs :
+    let s := runIOps .byHashKey {} (twoBlocks ++ [.purgeCache])
+    (s.live.dbBlockByHeight 1 = { hHeight := 1, hash := [0xB1], txs := [[0x71]] }) ∧
+    (let c := (getBlocks .addsLoaded s.cache s.live 1 1).2
+     (getBlocks .addsLoaded s.cache s.live 1 1).1 = ([{ hHeight := 2, hash := [0xB2] }], 2) ∧
+     (getBlockByHeight .byHashKey c s.live 1).1 = { hHeight := 1, hash := [0xB1] } ∧
+     (getBlockByHeight .byHashKey c (s.ro 1) 1).1 = { hHeight := 1, hash := [0xB1] }) ∧
+    (let c := (getBlocks pageFillOfSource s.cache s.live 1 1).2
+     (getBlockByHeight .byHashKey c s.live 1).1 = { hHeight := 1, hash := [0xB1], txs := [[0x71]] }) := by
   decide +kernel
 
 /-! ## non-vacuity -/
